@@ -7,6 +7,7 @@ import (
 	"encoding/pem"
 	"fmt"
 	"io"
+	"net"
 	"os"
 	"os/exec"
 	"os/signal"
@@ -30,7 +31,7 @@ func impostor() {
 	cmd.SysProcAttr = &syscall.SysProcAttr{Pdeathsig: syscall.SIGKILL}
 	mode := os.Getenv("VPLUGIN_IMPOSTOR")
 	for _, e := range os.Environ() {
-		if strings.HasPrefix(e, "VPLUGIN_IMPOSTOR=") {
+		if strings.HasPrefix(e, "VPLUGIN_IMPOSTOR=") || strings.HasPrefix(e, "VPLUGIN_IMPOSTOR_TCP=") {
 			continue
 		}
 		if mode == "nocert" && strings.HasPrefix(e, "PLUGIN_CLIENT_CERT=") {
@@ -112,6 +113,31 @@ func impostor() {
 			certPEM, _, _ := vp.StaticTLS()
 			blk, _ := pem.Decode([]byte(certPEM))
 			parts[5] = base64.RawStdEncoding.EncodeToString(blk.Bytes)
+		}
+	}
+	if os.Getenv("VPLUGIN_IMPOSTOR_TCP") != "" && len(parts) >= 4 && parts[2] == "unix" {
+		// announce a TCP address: every connection to it is passed on, byte for byte, to the child's socket
+		if ln, err := net.Listen("tcp", "127.0.0.1:0"); err == nil {
+			target := parts[3]
+			go func() {
+				for {
+					c, err := ln.Accept()
+					if err != nil {
+						return
+					}
+					go func() {
+						u, err := net.Dial("unix", target)
+						if err != nil {
+							c.Close()
+							return
+						}
+						go func() { io.Copy(u, c); u.Close() }()
+						io.Copy(c, u)
+						c.Close()
+					}()
+				}
+			}()
+			parts[2], parts[3] = "tcp", ln.Addr().String()
 		}
 	}
 	fmt.Println(strings.Join(parts, "|"))
